@@ -58,6 +58,8 @@ type Case struct {
 	// CleanedPkgName: go_package is a bare import path whose last element is no identifier ("…/go-<name>.v1"),
 	// so the Go package name is what gogo makes of it ("go_<name>_v1"); the structs live at that path.
 	CleanedPkgName bool
+	// MixedCaseTarget: the target package is called `tfSchema` (a legal Go package name with a capital).
+	MixedCaseTarget bool
 	// PrefixTarget: the target package name is a proper prefix of the struct package name (k5s -> k5).
 	PrefixTarget bool
 	// TypesNamedPkg: the struct package is called `types` (like the framework package the generated file
@@ -141,6 +143,9 @@ func (w *Workspace) Prepare(c *Case) {
 		tp := c.Cfg.TargetPackageName
 		if tp == "" {
 			tp = "tfschema"
+			if c.MixedCaseTarget {
+				tp = "tfSchema"
+			}
 			c.Cfg.TargetPackageName = tp
 		}
 		c.TFImport = base + "/" + tp
